@@ -488,5 +488,9 @@ _amend("C13", "text", "R13.10: no format package assigns to a field of the regis
 _amend("C08", "text", "R08.1-R08.13", "R08.1-R08.14")
 _amend("C07", "text", "R07.1-R07.13", "R07.1-R07.15")
 
+_amend("C01", "text", "(R01.1-R01.56;", "(R01.1-R01.57; R01.57: an operand negated by De Morgan's rewrite is grouped for every level below the unary level (exhaustive evaluation);")
+_amend("C01", "text", "Decides fifty-six structural", "Decides fifty-seven structural")
+_amend("C03", "text", "Decides twenty-six local clauses (R03.1-R03.26;", "Decides twenty-seven local clauses (R03.1-R03.27; R03.27: only attributes with a missing-value default are dropped for having it (reference table);")
+
 if __name__ == "__main__":
     main()
